@@ -431,6 +431,20 @@ def prog():
     backend.prove()
     return out
 """, {"a": lambda c: SymInt(z3.Int("s_a"))}),
+        # a result that IS one of the call's own arguments (a Feistel round hands its right half back): listed all the same
+        "passthrough_result": ("""
+def prog():
+    @subqap("rnd")
+    def rnd(l, r):
+        return r, l + r * r
+    x = PrivVal(a)
+    y = PrivVal(b)
+    u, v = rnd(x, y)
+    w, z = rnd(u, v)
+    out = (w + z).val()
+    backend.prove()
+    return out
+""", {"a": lambda c: SymInt(z3.Int("s_a")), "b": lambda c: SymInt(z3.Int("s_b"))}),
         # the LAST traced statement is a sub-circuit call: its blocks and its [glue] line must be on disk at proving time
         "call_is_last_statement": ("""
 def prog():
@@ -467,7 +481,7 @@ def prog():
 
     # per program: sub-circuit function -> (secret arguments, secret results, calls)
     FUNCS = {"square_twice": {"sq": (1, 1, 2)}, "inconsistent_calls": {"chk": (1, 1, 2)},
-             "no_arguments_two_results": {"gen": (0, 2, 2)}, "scaled_and_constant_arguments": {"sc": (1, 1, 3)}, "import_after_call": {"sq": (1, 1, 2)}, "call_is_last_statement": {"sq": (1, 1, 2)}, "plain_and_secret_arguments": {"mix": (2, 1, 2)}}
+             "no_arguments_two_results": {"gen": (0, 2, 2)}, "scaled_and_constant_arguments": {"sc": (1, 1, 3)}, "import_after_call": {"sq": (1, 1, 2)}, "call_is_last_statement": {"sq": (1, 1, 2)}, "passthrough_result": {"rnd": (2, 2, 2)}, "plain_and_secret_arguments": {"mix": (2, 1, 2)}}
 
     def extra(self, c, r, wires, io, eqs, directives):
         p = self.prime
